@@ -283,6 +283,46 @@ func (e *Enc) isAccumulator(phi *ssa.Phi, body map[int]bool) bool {
 	return n > 0
 }
 
+type heapWrite struct {
+	guard *smt.Term
+	obj   *smt.Term
+}
+
+// peelStores decomposes t as a chain of stores (and ite merges) over base. ok=false if t is not of that shape
+// (e.g. the heap was replaced by a fresh constant when a callee contract was applied).
+func (e *Enc) peelStores(t, base, guard *smt.Term) ([]heapWrite, bool) {
+	var out []heapWrite
+	steps := 0
+	var rec func(t, guard *smt.Term) bool
+	rec = func(t, guard *smt.Term) bool {
+		steps++
+		if steps > 4000 {
+			return false
+		}
+		for {
+			if t == base {
+				return true
+			}
+			switch t.Op {
+			case "store":
+				out = append(out, heapWrite{guard, t.Args[1]})
+				t = t.Args[0]
+				continue
+			case "ite":
+				if !rec(t.Args[1], e.C.And(guard, t.Args[0])) {
+					return false
+				}
+				return rec(t.Args[2], e.C.And(guard, e.C.Not(t.Args[0])))
+			}
+			return false
+		}
+	}
+	if !rec(t, guard) {
+		return nil, false
+	}
+	return out, true
+}
+
 type loopFrame struct {
 	heap   string
 	entry  *smt.Term   // heap value at loop entry
@@ -512,6 +552,13 @@ func (e *Enc) enterLoop(fr *Frame, b *ssa.BasicBlock, hdr *loopHdr, in *State, b
 			}
 			framed = append(framed, lf)
 			e.assume(in, e.loopFrameCond(in.Heaps[h], lf))
+			if e.loopHead == nil {
+				e.loopHead = map[*ssa.BasicBlock]map[string]*smt.Term{}
+			}
+			if e.loopHead[b] == nil {
+				e.loopHead[b] = map[string]*smt.Term{}
+			}
+			e.loopHead[b][h] = in.Heaps[h]
 		}
 	}
 	if e.loopFramed == nil {
@@ -629,8 +676,24 @@ func (e *Enc) checkBackEdge(fr *Frame, src, header *ssa.BasicBlock, cur *State, 
 		if !ok {
 			continue
 		}
+		cond := e.loopFrameCond(cur, lf)
+		if head := e.loopHead[header][lf.heap]; head != nil {
+			// quantifier-free form: the heap after the body is a chain of stores over the heap at the loop head, so
+			// it suffices that every object stored to was allocated during the loop or is one of the exceptions
+			if ws, ok := e.peelStores(cur, head, e.C.True()); ok {
+				var cs []*smt.Term
+				for _, w := range ws {
+					allowed := []*smt.Term{e.C.Cmp("bvugt", w.obj, lf.alloc)}
+					for _, x := range lf.except {
+						allowed = append(allowed, e.C.Eq(w.obj, x))
+					}
+					cs = append(cs, e.C.Implies(w.guard, e.C.Or(allowed...)))
+				}
+				cond = e.C.And(cs...)
+			}
+		}
 		e.oblige(fr, st, "loop-frame", fmt.Sprintf("loop%d.%s", ord, lf.heap), "loop body leaves heap "+lf.heap+" unchanged on every object that existed at loop entry and is not named by the loop from outside",
-			src.Instrs[len(src.Instrs)-1].Pos(), e.loopFrameCond(cur, lf), e.Props)
+			src.Instrs[len(src.Instrs)-1].Pos(), cond, e.Props)
 	}
 	if len(invs) == 0 {
 		return
@@ -857,6 +920,15 @@ func VerifyFunc(p *Program, fn *ssa.Function, prop string) (res *FuncResult) {
 					o := c.BoundVar("o", smt.BV(64))
 					// object 0 is nil: nothing lives there
 					cond = c.Forall([]*smt.Term{o}, c.Implies(c.And(c.Ne(o, e.bv64(0)), c.Cmp("bvule", o, entry.Alloc)), c.Eq(c.Select(cur, o), c.Select(init, o))))
+					// quantifier-free form when the final heap is a chain of stores over the entry heap: every object
+					// stored to was allocated by this activation
+					if ws, ok := e.peelStores(cur, init, c.True()); ok {
+						var cs []*smt.Term
+						for _, w := range ws {
+							cs = append(cs, c.Implies(w.guard, c.Cmp("bvugt", w.obj, entry.Alloc)))
+						}
+						cond = c.And(cs...)
+					}
 				} else {
 					cond = c.Eq(cur, init)
 				}
